@@ -3,6 +3,7 @@
 package main
 
 import (
+	"sync"
 	"encoding/base64"
 	"encoding/hex"
 	"fmt"
@@ -453,6 +454,44 @@ func init() {
 										}
 									}
 								}()
+							}
+						}
+					}
+				case "concurrent_issue":
+					// nothing is altered: 16 requests are issued sessions at the same time, again and again; every cookie set that was
+					// handed out must decode to exactly the session it was issued for (never to a neighbour's)
+					if A.csrf != nil || w.mr != nil {
+						break
+					}
+					for round := 0; round < 25; round++ {
+						const nconc = 16
+						jars := make([]*vpJar, nconc)
+						sess := make([]*sessionsapi.SessionState, nconc)
+						for i := range jars {
+							jars[i] = vpNewJar()
+							sess[i] = vpMkSession(1000+round*nconc+i, 150+rng.Intn(400), rng)
+						}
+						var wg sync.WaitGroup
+						for i := range jars {
+							wg.Add(1)
+							go func(i int) {
+								defer wg.Done()
+								w.saveVia(jars[i], sess[i])
+							}(i)
+						}
+						wg.Wait()
+						for i := range jars {
+							instances++
+							got, err := w.proxy.sessionStore.Load(w.storeReq(jars[i]))
+							if err != nil || got == nil {
+								continue
+							}
+							accepted++
+							if !vpSessionsEqual(got, sess[i]) {
+								diff++
+								if example == "" {
+									example = fmt.Sprintf("cookie issued for %s decodes to %s", sess[i].Email, got.Email)
+								}
 							}
 						}
 					}
